@@ -50,7 +50,31 @@ func genC12Case(r *Rand, form string, many bool) *Case {
 		}
 		return cc
 	}
-	return genCmdCase(r, form, caseSize{many: many})
+	c := genCmdCase(r, form, caseSize{many: many})
+	if form == "topa-dir" && r.P(0.15) {
+		// two query names that gofasta's own rule ('/' becomes '_') maps to one file name: which pair the file
+		// ends up holding must not depend on the schedule
+		sc := parseSamText(c.Files["sam"])
+		var names []string
+		for _, rec := range sc.Recs {
+			if rec.Flag&(4|256) == 0 && (len(names) == 0 || names[len(names)-1] != rec.Name) {
+				names = append(names, rec.Name)
+			}
+		}
+		if len(names) >= 2 {
+			a, b := names[0], names[len(names)-1]
+			for i := range sc.Recs {
+				switch sc.Recs[i].Name {
+				case a:
+					sc.Recs[i].Name = "hCoV-19/same/1"
+				case b:
+					sc.Recs[i].Name = "hCoV-19_same_1"
+				}
+			}
+			c.Files["sam"] = sc.Text()
+		}
+	}
+	return c
 }
 
 func genC12(r *Rand, tier string, ord int) *Trial {
